@@ -303,6 +303,13 @@ def vsweep2Entry (hi lo : Nat) : String :=
   | .error .eof => "e"
   | .error .ueof => "u"
 
+/-- monitors that only need the input bytes, the level and the implementation's one-word verdict -/
+def encLevelFails (lvl : Nat) (b : Bytes) (e : String) : List (String × String × String) :=
+  if e.startsWith "PANIC" ∨ e = "skip" then [] else
+  match encLevelMismatch lvl b (e.startsWith "E:enclevel") with
+  | some why => [("enc_level_rfc", "-", why)]
+  | none => []
+
 /-! ### composite boundary ops: one-word summaries of a parser run -/
 
 def commas (s : String) : String := ",".intercalate (words s)
@@ -359,6 +366,7 @@ def summFails (kind : String) (args : List String) (b : Bytes) (e : String) : Li
   (if e.startsWith "PANIC" then [("no_panic", "-", s!"{kind} panicked on {hx b}")] else []) ++
   (match kind, args with
    | "dec", [lvl, flags, exp] =>
+     encLevelFails (lvlOf lvl) b e ++
      if e.startsWith "ok:" then
        let c := ctxOf lvl flags exp
        (match e.splitOn ":" with
@@ -371,7 +379,17 @@ def summFails (kind : String) (args : List String) (b : Bytes) (e : String) : Li
    | "tpdec", [pers] =>
      if e = "ok" then
        match tpForbidden (pers = "c") b with
-       | some why => [("rejects_out_of_range", "-", s!"transport parameters {hx b} accepted although RFC 9000 §18.2 forbids: {why}")]
+       | some why => [(if why = "duplicate_parameter" then "tp_no_duplicates" else "rejects_out_of_range", "-",
+                       s!"transport parameters {hx b} accepted although RFC 9000 §18.2 / §7.4 forbids: {why}")]
+       | none => []
+     else []
+   | "tpstdec", [] =>
+     -- the session-ticket format is the transport parameter format after a version varint
+     if e = "ok" then
+       match takeSpec b with
+       | some (_, r) => (match tpScan (r.length + 1) r with
+         | some ps => if hasDupKey ps then [("tp_no_duplicates", "-", s!"session ticket parameters {hx b} accepted with a repeated id")] else []
+         | none => [])
        | none => []
      else []
    | "lhdr", [] =>
@@ -507,7 +525,14 @@ def step (s : St) (op impl : String) : St × StepOut :=
     let ctxText := s!"{lvl} {flags} {exp}"
     let implOk := splitOk impl
     let mut_fails : List Fail := Id.run do
-      let mut fails : List Fail := noPanic []
+      let mut fails : List Fail := noPanic [] ++ encLevelFails c.lvl b impl
+      -- one FrameParser serves the whole case (as it serves a connection): the answer for the same
+      -- bytes in the same context must not depend on what was parsed before
+      match s.decs.find? (fun d => d.ctx = ctxText ∧ d.hex = h) with
+      | some d =>
+        if d.impl ≠ impl then
+          fails := fails ++ [("parser_history_independent", "-", s!"{h} parsed as `{d.impl}` earlier in this case and as `{impl}` now")]
+      | none => pure ()
       match implOk with
       | some (ftext, n) =>
         -- consumes exactly what it reports, within the input
@@ -515,6 +540,12 @@ def step (s : St) (op impl : String) : St × StepOut :=
         -- out-of-range values must be rejected
         match rfcForbidden c.lvl c.supportsDatagrams c.supportsResetStreamAt c.supportsAckFrequency b with
         | some why => fails := fails ++ [("rejects_out_of_range", "-", s!"accepted although RFC 9000 forbids it: {why}")]
+        | none => pure ()
+        -- ACK (0x02) carries no ECN counts, ACK_ECN (0x03) exactly the three it ends with
+        match ackEcnSpec b with
+        | some (e0, e1, ce) =>
+          if ftext.startsWith "ack " ∧ kv (words ftext) "e=" ≠ s!"{e0},{e1},{ce}" then
+            fails := fails ++ [("ack_ecn_spec", "-", s!"RFC 9000 §19.3 gives ECN counts {e0},{e1},{ce}, implementation {kv (words ftext) "e="}")]
         | none => pure ()
         -- the ACK Delay is scaled by the exponent that applies at this level
         match ackDelaySpecNs c.lvl c.ackDelayExponent b with
@@ -611,6 +642,7 @@ def step (s : St) (op impl : String) : St × StepOut :=
       let mut fails : List Fail := []
       let mut t := 0
       for e in entries do
+        fails := fails ++ encLevelFails c.lvl (UInt8.ofNat t :: tb) e
         if e.startsWith "PANIC" then fails := fails ++ [("no_panic", "-", s!"type byte {t} at level {lvl} panicked")]
         if e.startsWith "ok:" then
           match e.splitOn ":" with
@@ -814,7 +846,9 @@ def step (s : St) (op impl : String) : St × StepOut :=
       let mut fails : List Fail := noPanic []
       if impl.startsWith "ok " then
         match tpForbidden (pers = "c") b with
-        | some why => fails := fails ++ [("rejects_out_of_range", "-", s!"transport parameters accepted although RFC 9000 §18.2 forbids: {why}")]
+        | some why =>
+          fails := fails ++ [(if why = "duplicate_parameter" then "tp_no_duplicates" else "rejects_out_of_range", "-",
+                              s!"transport parameters accepted although RFC 9000 §18.2 / §7.4 forbids: {why}")]
         | none => pure ()
         -- Marshal → Unmarshal keeps every field that was sent
         match s.tpEncs.find? (fun e => e.1 = h ∧ e.2.1 = pers) with
@@ -870,7 +904,8 @@ def step (s : St) (op impl : String) : St × StepOut :=
       | .ok p => s!"ok {fmtTP p}"
       | .error .panic => "PANIC"
       | .error e => s!"E:{terrName e}"
-    (s, { model := model, tags := [s!"tpstdec:{if model.startsWith "ok" then "ok" else model}"], fails := noPanic [] })
+    let dupFails : List Fail := summFails "tpstdec" [] (unhx h) (if impl.startsWith "ok" then "ok" else impl)
+    (s, { model := model, tags := [s!"tpstdec:{if model.startsWith "ok" then "ok" else model}"], fails := dupFails })
   | ["smax", ms, a, b, c] =>
     let ws := [a, b, c]
     let n := streamMaxDataLen (kvn ws "sid=") (kvn ws "off=") (kv ws "len=" = "1") (natOf ms)
